@@ -128,6 +128,7 @@ func Spec(prop, tier string) *core.CheckSpec {
 			Rule: "every Go function reachable from the global environment, package.loaded, metatables of standard values and values returned by library functions (iterators, wrappers, context objects) x all 15 non-empty subsets of required flags x 2 sampled argument tuples (paths and shell commands aimed at a private sentinel directory holding a secret) x a sampled call spelling (direct, pcall, __index metamethod, coroutine.wrap). Oracle: undeclared flag => 'missing flags' error, context live, sentinel untouched; iosafe declared and required => sentinel byte-identical and the secret never returned. One run covers one function; the function x flag-subset grid is exhaustive once runs >= number of functions x a small factor (counted)",
 			Batches: []core.Batch{
 				{Engine: "flags", Mode: "", Runs: n(12000, 400000), Millis: ms(40000, 600000), Chunk: 400, HangS: 60},
+				{Engine: "flags", Mode: "plant", Runs: n(3000, 300000), Millis: ms(10000, 200000), Chunk: 500, HangS: 60, Note: "code handed only to a context requiring iosafe plants something the runtime itself runs later (finalisers of dropped / kept / several values, line / call / return / count hooks, directly, inside pcall, inside a coroutine) and leaves; the host then allocates, collects and closes the runtime: the sentinel must stay as it was"},
 				{Engine: "flags", Mode: "trace", Runs: n(1500, 100000), Millis: ms(25000, 300000), Chunk: 200, HangS: 120, Workers: 6, Env: []string{"VSIM_STRACE=1"}, Note: "system-call seam: the workers run under strace (file, network and process calls) and read their own trace; between two markers around every call that must be refused or that runs with iosafe required, no system call may name the sentinel directory, open a socket or start a process - covers reads that return nothing to Lua"},
 			},
 			Real:   realAll,
